@@ -1,8 +1,20 @@
-import BrushVerif.Model.Wire
-/-! Driver for C16 (stub until the property's model exists). -/
+import BrushVerif.Drv.FlowWire
+import BrushVerif.Model.Traps
+/-! Driver for C16: `C16 <hasTrap 0|1> <execReplaced 0|1> <program wire>`; with `hasTrap` the LAST
+function of the program is the EXIT handler's body. Response: `<status> <trace>`. -/
 namespace BrushVerif.Drv.C16
-open BrushVerif.Wire
+open BrushVerif.Wire BrushVerif.Flow BrushVerif.Drv.FlowWire BrushVerif.Traps
 
-def handle (_toks : List Str) : Str := "unimplemented".toList
+def handle (toks : List Str) : Str :=
+  match toks with
+  | ht :: xr :: rest =>
+    match pProg rest with
+    | none => "bad-program".toList
+    | some (fs, main) =>
+      let h : Option Cmd := if ht = ['1'] then fs.getLast? else none
+      match runShell .dashC 100000 fs h main (xr = ['1']) with
+      | none => "out-of-fuel".toList
+      | some o => showOut (some (o.trace, o.status))
+  | _ => "bad-request".toList
 
 end BrushVerif.Drv.C16
